@@ -1,7 +1,7 @@
 #!/bin/sh
 # tools/run_all.sh [quick|thorough] [ids...] - run the registered check of every property one after the other on /repo,
 # one summary line per property (rc, seconds, the check's own summary) on stdout and in run_all_<tier>.log (scratch, not committed)
-cd /verif
+cd "$(dirname "$0")/.."
 T=${1:-quick}; shift
 IDS=${@:-"C01 C02 C03 C04 C05 C06 C07 C08 C09 C10 C11 C12 C13 C14 C15 C16 C17 C18 C19 C20"}
 : > run_all_$T.log
